@@ -63,9 +63,6 @@ pub fn compare_levels(r0: &AppRun, r: &AppRun, level: u8) -> Option<Violation> {
     match &r0.ending {
         Ending::Panic(_) => None,
         Ending::Return | Ending::Exit { site: "pop_stack_wrap", .. } => {
-            if r.header.len() != 3 {
-                return Some(Violation::new(&tag("header"), "3 header lines", format!("{:?} then {:?}", r.header, lossy(&r.out))));
-            }
             if r.out != r0.out {
                 return Some(Violation::new(&tag("stdout"), lossy(&r0.out), lossy(&r.out)));
             }
